@@ -20,6 +20,11 @@ EXPLANATION = ('CBR-BITS (16 shifts x engines), CBR-TARGET, LW-SOUND and LW-SPEC
          ' X86-CBR-HSEM.'
          ' A64-CBR-HSEM.')
 
+CLAIM += (' Vector RISC-V back-end: the register that holds the CBRANCH condition mask for the whole program is loaded from one entry of randomx_masks and every reload inside the loop uses the same entry (RVV-RT-CONST).')
+EXPLANATION += ' RVV-RT-CONST.'
+
+TECHNIQUE += '; constant-reload agreement over the disassembly of the hand-written vector runtime'
+
 
 def run(ctx, R):
     F = astq.Facts(ctx, 'K0')
